@@ -2171,6 +2171,201 @@ pub static C20: CliProp = CliProp {
     extra: Some(c20_extra),
 };
 
+
+// ------------------------------------------------------------------------------------------
+// C19: scheduling independence (engine E4)
+
+fn gen_c19(t: &mut Tape, labels: &mut Vec<&'static str>) -> Option<CliCase> {
+    let mut case = CliCase::default();
+    case.files.insert(".editorconfig".into(), b"root = true\n".to_vec());
+    let n = 1 + t.pick(5);
+    let mut args: Vec<String> = Vec::new();
+    for i in 0..n {
+        let name = format!("f{i}.lua");
+        let content = match t.pick(6) {
+            0 | 1 | 2 => {
+                labels.push("file:unformatted");
+                messy_program(i)
+            }
+            3 | 4 => {
+                labels.push("file:formatted");
+                lib_format(&messy_program(i), sl::Config::default()).unwrap_or_default()
+            }
+            _ => {
+                labels.push("file:unparseable");
+                format!("local x{i} = = 1\n")
+            }
+        };
+        case.files.insert(name.clone(), content.into_bytes());
+        args.push(name);
+    }
+    let missing = t.pick(3);
+    for k in 0..missing {
+        args.push(format!("missing{k}.lua"));
+        labels.push("arg:missing-path");
+    }
+    // argument order is part of the schedule space
+    match t.pick(4) {
+        0 => args.reverse(),
+        1 => {
+            let k = t.pick(args.len().max(1));
+            args.rotate_left(k);
+        }
+        2 => {
+            if args.len() >= 2 {
+                let k = t.pick(args.len() - 1);
+                args.swap(k, k + 1);
+            }
+        }
+        _ => {}
+    }
+    let mut argv: Vec<String> = Vec::new();
+    if t.chance(180) {
+        argv.push("--check".into());
+        labels.push("mode:check");
+    } else {
+        labels.push("mode:write");
+    }
+    argv.push("--num-threads".into());
+    argv.push("2".into());
+    argv.extend(args);
+    case.argv = argv;
+    Some(case)
+}
+
+/// all merges of two sequences that keep the order inside each
+fn merges(a: &[String], b: &[String], limit: usize) -> Vec<Vec<String>> {
+    fn go(a: &[String], b: &[String], cur: &mut Vec<String>, out: &mut Vec<Vec<String>>, limit: usize) {
+        if out.len() >= limit {
+            return;
+        }
+        if a.is_empty() && b.is_empty() {
+            out.push(cur.clone());
+            return;
+        }
+        if !a.is_empty() {
+            cur.push(a[0].clone());
+            go(&a[1..], b, cur, out, limit);
+            cur.pop();
+        }
+        if !b.is_empty() {
+            cur.push(b[0].clone());
+            go(a, &b[1..], cur, out, limit);
+            cur.pop();
+        }
+    }
+    let mut out = Vec::new();
+    go(a, b, &mut Vec::new(), &mut out, limit);
+    out
+}
+
+fn c19_oracle(case: &CliCase, first: &CliRun) -> Verdict {
+    let args = parse_args(&case.argv);
+    let config = sl::Config::default();
+    let (sel, missing) = simple_selection(case, &args);
+    let mut any_error = missing;
+    let mut any_diff = false;
+    let mut expected_files: BTreeMap<String, Vec<u8>> = BTreeMap::new();
+    for (rel, bytes) in &case.files {
+        let mut after = bytes.clone();
+        if sel.contains_key(rel) {
+            match classify_file(bytes, config) {
+                FileClass::Error => any_error = true,
+                FileClass::Differs(q) => {
+                    any_diff = true;
+                    if !args.check {
+                        after = q.into_bytes();
+                    }
+                }
+                FileClass::Formatted => {}
+            }
+        }
+        expected_files.insert(rel.clone(), after);
+    }
+    let want = if any_error {
+        2
+    } else if args.check && any_diff {
+        1
+    } else {
+        0
+    };
+    let judge = |run: &CliRun, what: &str| -> Option<String> {
+        if run.code != Some(want) {
+            return Some(format!("{what}: exit status {:?}, expected {want}", run.code));
+        }
+        for (rel, bytes) in &expected_files {
+            if run.after.get(rel).map(|f| &f.bytes) != Some(bytes) {
+                return Some(format!("{what}: final contents of `{rel}` differ from the expected result"));
+            }
+        }
+        None
+    };
+    if let Some(d) = judge(first, "--num-threads 2") {
+        return Verdict::Fail(d);
+    }
+    // thread-count sweep
+    for n in [1usize, 3, 4, 8, 16] {
+        let mut c = case.clone();
+        if let Some(p) = c.argv.iter().position(|a| a == "--num-threads") {
+            c.argv[p + 1] = n.to_string();
+        }
+        match crate::cli::run_cli(&c) {
+            Ok(run) => {
+                if let Some(d) = judge(&run, &format!("--num-threads {n}")) {
+                    return Verdict::Fail(d);
+                }
+            }
+            Err(e) => return Verdict::Skip(Box::leak(format!("infrastructure: {e}").into_boxed_str())),
+        }
+    }
+    // record the exit-status accesses of one run
+    let mut rec = case.clone();
+    rec.env.insert("STYLUA_VERIF_SCHED_LOG".into(), "$ROOT/sched.log".into());
+    let recorded = match crate::cli::run_cli(&rec) {
+        Ok(r) => r,
+        Err(_) => return Verdict::Skip("infrastructure: recording run failed"),
+    };
+    let log = recorded.after.get("sched.log").map(|f| String::from_utf8_lossy(&f.bytes).to_string()).unwrap_or_default();
+    let labels: Vec<String> = log.lines().filter_map(|l| l.split(" -> ").next().map(|s| s.to_string())).collect();
+    // the final read of the status by the main thread always comes last
+    let main_seq: Vec<String> = labels.iter().filter(|l| l.starts_with("main:") && *l != "main:load").cloned().collect();
+    let w_seq: Vec<String> = labels.iter().filter(|l| l.starts_with("w:")).cloned().collect();
+    let mut explored = 0;
+    let mut racy = false;
+    if !main_seq.is_empty() && !w_seq.is_empty() && main_seq.len() + w_seq.len() <= 10 {
+        for order in merges(&main_seq, &w_seq, 64) {
+            let mut c = case.clone();
+            c.env.insert("STYLUA_VERIF_SCHED".into(), order.join(","));
+            c.env.insert("STYLUA_VERIF_SCHED_TIMEOUT_MS".into(), "400".into());
+            let Ok(run) = crate::cli::run_cli(&c) else { continue };
+            if String::from_utf8_lossy(&run.stderr).contains("VERIF-SCHED-INFEASIBLE") {
+                continue;
+            }
+            explored += 1;
+            // a main-thread store between two worker accesses is the interesting interleaving
+            if order.windows(3).any(|w| w[0].starts_with("w:") && w[1].starts_with("main:") && w[2].starts_with("w:")) {
+                racy = true;
+            }
+            if let Some(d) = judge(&run, &format!("access order [{}]", order.join(", "))) {
+                return Verdict::Fail(d);
+            }
+        }
+    }
+    Verdict::Pass { nontrivial: explored >= 2 || racy }
+}
+
+pub static C19: CliProp = CliProp {
+    id: "C19",
+    rule: "E4: generated file sets (1-5 files: unformatted, formatted, unparseable) with 0-2 missing path arguments in permuted argument order, --check or write mode. For every set: (a) a sweep over --num-threads 1, 2, 3, 4, 8, 16; (b) the exit-status accesses of one run are recorded through the schedule hook (labels <thread>:<operation>), and every interleaving of the main thread's accesses (walker errors) with the output thread's accesses (diffs, logged errors) that keeps each thread's own order - all of them for up to 10 accesses, at most 64 - is forced through STYLUA_VERIF_SCHED; orders the program cannot realise are reported by the hook and not judged. Oracle (order independent): exit status 2 if any selected file fails or an argument is missing, else 1 if (check mode) any file differs, else 0; final file contents equal the library's output (write mode) or the input (check mode), for every thread count and every forced order. Non-trivial: at least two feasible orders were forced, or an order places a main-thread store between two output-thread accesses.",
+    gen_case: gen_c19,
+    oracle: c19_oracle,
+    quick_cases: 600,
+    thorough_cases: 10_000,
+    tape_len: 100,
+    assumptions: &["interleavings of the exit-status accesses are enumerated; interleavings of file I/O between workers are only reached through the thread-count sweep", "the schedule hook wraps the EXIT_CODE atomic (verif-hooks), so a rewritten access sequence is still scheduled"],
+    extra: None,
+};
+
 pub fn cli_prop(id: &str) -> Option<&'static CliProp> {
     match id {
         "C13" => Some(&C13),
@@ -2179,6 +2374,7 @@ pub fn cli_prop(id: &str) -> Option<&'static CliProp> {
         "C16" => Some(&C16),
         "C17" => Some(&C17),
         "C18" => Some(&C18),
+        "C19" => Some(&C19),
         "C20" => Some(&C20),
         _ => None,
     }
